@@ -53,6 +53,9 @@ type HostilePlan struct {
 	BindUDP bool      `json:"bind_udp,omitempty"` // bind a UDP port pair ({{HP}}, {{HP1}}) the peer can send from
 	UDP     []UDPSend `json:"udp,omitempty"`      // datagrams sent after the chunks, from the bound ports to the server's UDP ports
 
+	KM    *MikeySpec `json:"km,omitempty"`     // {{KM}} in a chunk = the KeyMgmt header value built from this when the chunk is sent …
+	KMURL string     `json:"km_url,omitempty"` // … for this URL
+
 	Flood      int      `json:"flood,omitempty"`       // after the chunks: this many requests in a tight loop …
 	FloodReqs  [][]byte `json:"flood_reqs,omitempty"`  // … taken in turn from this list
 	FloodDrain string   `json:"flood_drain,omitempty"` // while flooding the peer reads "fast", "slow" or not at all ("none")
@@ -502,6 +505,9 @@ func runHostile(ts *testServer, plan *HostilePlan, goodPorts [2]int, limit time.
 		b = bytes.ReplaceAll(b, []byte("{{GP1}}"), []byte(itoa(goodPorts[0]+1)))
 		b = bytes.ReplaceAll(b, []byte("{{HP}}"), []byte(itoa(hp)))
 		b = bytes.ReplaceAll(b, []byte("{{HP1}}"), []byte(itoa(hp+1)))
+		if plan.KM != nil && bytes.Contains(b, []byte("{{KM}}")) {
+			b = bytes.ReplaceAll(b, []byte("{{KM}}"), []byte(plan.KM.header(plan.KMURL)))
+		}
 		return b
 	}
 	for _, ch := range plan.Chunks {
